@@ -292,9 +292,10 @@ def run(ctx, drv):
         else:
             val = [[rng.randrange(5)] * rng.randrange(0, 3) for _ in range(rng.choice([cnt, cnt + 1]))]
         arr = C.FixedLengthArray(n)
-        arr._data = list(data)
+        for i_, v_ in enumerate(data):         # filled through the public single-index assignment
+            arr[i_] = v_
         arr[start:stop] = val
-        got = " ".join(show(e) for e in arr._data)
+        got = " ".join(show(arr[i_]) for i_ in range(n))
         inp = {"data": data, "start": start, "stop": stop, "value": val}
         ask(f"fla {len(data)} " + " ".join(pv(e) for e in data) + f" {start} {stop} {pv(val)}",
             lambda g, got=got, inp=inp: None if g.split(" ", 1)[1:] == ([got] if got else []) or g == "a " + got or (g.strip() == "a" and got == "")
